@@ -7,6 +7,28 @@ using namespace iora::core;
 using ms = std::chrono::milliseconds;
 int main(int argc, char **argv) {
   auto in = replay_io::load(argv[1]);
+  if (in.count("MODE") && in["MODE"] == "stale_level") {
+    // W2a on the re-insertion path: an entry that lived on level >= 1 is re-inserted through the immediate branch (reschedule to a sub-tick
+    // delay); its (wheelLevel, bucketIndex) must name the bucket it is linked in, or the next cancel() unlinks it from the wrong bucket.
+    TimingWheel tw(ms(10), 4, 2);
+    tw._accepting.store(true);
+    auto id = tw.schedule(ms(100), [] {});                       // 10 ticks >= 4: level 1
+    auto *e = tw._entryMap[id];
+    size_t lvl0 = e->wheelLevel;
+    tw.reschedule(id, ms(0));                                    // immediate branch
+    size_t lvl = e->wheelLevel, idx = e->bucketIndex;
+    bool linked = false; for (auto *p = tw._wheels[lvl].buckets[idx].head; p; p = p->next) linked |= (p == e);
+    printf("schedule(100 ms) -> level %zu; reschedule(0 ms) -> claims level %zu bucket %zu; linked there: %s\n", lvl0, lvl, idx, linked ? "yes" : "NO");
+    if (!linked) {
+      bool ok = tw.cancel(id);
+      auto *h = tw._wheels[0].buckets[idx].head;
+      char buf[300]; snprintf(buf, sizeof buf, "W2a violated: entry is not linked in the bucket its (wheelLevel, bucketIndex) names; cancel() returned %s and level-0 bucket %zu still points to %s",
+                              ok ? "true" : "false", idx, h == e ? "the entry that was just returned to the pool (dangling: the next schedule() reuses it and fires arbitrarily early)" : "something else");
+      replay_io::fail(buf);
+    }
+    replay_io::ok("re-inserted entry is linked where its indices say");
+    return 0;
+  }
   long long TICK = replay_io::i64(in["TICK"]), DELAY = replay_io::i64(in["DELAY"]);
   size_t TPW = replay_io::u64(in["TPW"]), NW = replay_io::u64(in["NW"]), CUR = replay_io::u64(in["CUR"]);
   if (TICK <= 0 || TPW == 0 || (TPW & (TPW - 1)) || NW == 0 || TPW > 4096 || NW > 16) { replay_io::ok("input outside the constructor's precondition / replay range"); return 0; }
